@@ -379,6 +379,19 @@ def core_specs(P: str = "U", variant: int = 0) -> list[CS]:
             body="    def __len__(self):\n        return len(self.elems)\n\n    def __iter__(self):\n        return iter(self.elems)\n\n    def __contains__(self, x):\n        return any(x is e for e in self.elems)\n",
         ),
         CS(f"{P}Hold", (E,), F(FS("blk", "child", f"{P}Coll", "one", (f"{P}Coll",)), FS("alt", "child", f"{P}Coll | None", "opt", (f"{P}Coll",), default="None"))),
+        # string (forward-reference) annotations mixed with direct ones, the string ones declared first / in between
+        CS(
+            f"{P}StrMix",
+            (E,),
+            F(
+                FS("first", "child", repr(f"{E} | None"), "opt", (E,), default="None"),
+                FS("second", "child", f"{E} | None", "opt", (E,), default="None"),
+                FS("third", "child", repr(f"tuple[{E}, ...]"), "tuple", (E,), default="()"),
+                FS("fourth", "child", f"tuple[{E}, ...]", "tuple", (E,), default="()"),
+                FS("pa", "prop", repr("int"), "int", default="0"),
+                FS("pb", "prop", "str", "str", default='""'),
+            ),
+        ),
         # same property names in the same order, another compare flag
         CS(f"{P}CmpA", (E,), F(FS("v", "prop", "int", "int", default="0"), FS("note", "prop", "str", "str", default='""'))),
         CS(f"{P}CmpB", (E,), F(FS("v", "prop", "int", "int", default="0"), FS("note", "prop", "str", "str", compare=False, default='""'))),
